@@ -50,9 +50,10 @@ ENDGAMES = ["Q|", "R|", "Q|p", "R|p", "R|b", "RP|r", "RP|rp", "NN|", "NB|", "P|"
             "|", "PPP|ppp", "RBP|rn"]
 
 
-def random_position(r, material=None):
+def random_position(r, material=None, corner_bias=False):
     """(board64, stm, castle, ep, hmc, fmc): random placement of a material signature (kings not adjacent, pawns on
-    ranks 2-7); legality (side not to move in check) is filtered by the harness."""
+    ranks 2-7); legality (side not to move in check) is filtered by the harness.  With corner_bias the pieces crowd
+    into one corner / edge (pawns on the edge file near promotion), where the special endgame rules live."""
     if material is None:
         n = r.choice([2, 4, 6, 10, 16, 22, 28])
         w = "".join(r.choice("QRRBBNNPPPPPPPP") for _ in range(n // 2))
@@ -63,16 +64,26 @@ def random_position(r, material=None):
             w, b = b.upper(), w.lower()
         else:
             w, b = w.upper(), b.lower()
+    cx, cy = r.choice([0, 7]), r.choice([0, 7])
+
+    def pick(pc):
+        if not corner_bias or r.random() < 0.15:
+            return r.randrange(8, 56) if pc in "Pp" else r.randrange(64)
+        dx, dy = r.choice([0, 0, 0, 1, 1, 2, 3]), r.choice([0, 0, 1, 1, 1, 2, 3])
+        x, y = abs(cx - dx), abs(cy - dy)
+        if pc in "Pp":
+            y = min(6, max(1, y))
+        return y * 8 + x
     while True:
         board = ["."] * 64
-        wk, bk = r.randrange(64), r.randrange(64)
+        wk, bk = pick("K"), pick("k")
         if max(abs(wk % 8 - bk % 8), abs(wk // 8 - bk // 8)) <= 1:
             continue
         board[wk], board[bk] = "K", "k"
         ok = True
         for pc in w + b:
             for _ in range(50):
-                s = r.randrange(8, 56) if pc in "Pp" else r.randrange(64)
+                s = pick(pc)
                 if board[s] == ".":
                     board[s] = pc
                     break
@@ -258,8 +269,8 @@ def gen_sym(ctx, n):
     lines = []
     for i in range(n):
         x = r.random()
-        if x < 0.5:
-            p = random_position(r, r.choice(ENDGAMES))
+        if x < 0.65:
+            p = random_position(r, ENDGAMES[i % len(ENDGAMES)], corner_bias=r.random() < 0.8)
         elif x < 0.9:
             p = random_position(r)
         else:
@@ -447,7 +458,7 @@ def run(ctx):
         ctx.tie("histories-" + netname, kind="implementation-only predicate: incremental evaluator == fresh evaluator (512 accumulator lanes, clipped layer, score) after every operation", lines=len(sub))
     # ---- (b) symmetry, (d) cache, (e) hooked searches ------------------------------------------
     symnet = "mknet:material:%d" % ctx.seed
-    sym = gen_sym(ctx, 5000 if quick else 100000)
+    sym = gen_sym(ctx, 24000 if quick else 400000)
     cache = gen_cache_sessions(ctx, bdir, nets.get(symnet), 200 if quick else 3000)
     search = gen_search(ctx, 50 if quick else 600, 5 if quick else 6)
     csess = sessions_of(cache)
@@ -455,8 +466,12 @@ def run(ctx):
     for l in sym[:2] + search[:1]: ctx.sample({"op": l})
     results = {}
     ctx.log(f"histories done ({len(conc)} ops x 2 formula nets vs model, {len(other)} other nets)")
-    for netname in ([symnet, "formula:narrow"] if quick else [symnet, "formula:narrow", "mknet:small:%d" % ctx.seed, "mknet:big:%d" % ctx.seed]):
-        rc, out, err = run_impl(bdir, nets.get(netname), eval_lines)
+    enets = [symnet, "formula:narrow"] if quick else [symnet, "formula:narrow", "mknet:small:%d" % ctx.seed, "mknet:big:%d" % ctx.seed]
+    from concurrent.futures import ThreadPoolExecutor
+    with ThreadPoolExecutor(max_workers=4) as ex:
+        futs = {n: ex.submit(run_impl, bdir, nets.get(n), eval_lines) for n in enets}
+    for netname in enets:
+        rc, out, err = futs[netname].result()
         ctx.log(f"evaluate-level lines done on {netname}")
         ctx.count(len(eval_lines))
         if rc != 0 or len(out) != len(eval_lines):
@@ -474,13 +489,17 @@ def run(ctx):
     # ---- (c) SIMD builds ------------------------------------------------------------------------
     variants = ["avx2"] if quick else ["ssse3", "avx2", "avx512"]
     xlines = ["nn kind wide"] + (conc if not quick else sub)
+    vbs = {v: vlib.cxx_build(v, ("vharness",)) for v in variants}
+    jobs = [(v, netname, lines, ref) for v in variants
+            for netname, lines, ref in [("formula:wide", xlines, (outs["wide"] or [])[:len(xlines)]), (symnet, eval_lines, results.get(symnet))] if ref]
+    with ThreadPoolExecutor(max_workers=4) as ex:
+        xf = [ex.submit(run_impl, vbs[v], nets.get(netname), lines) for v, netname, lines, ref in jobs]
     for v in variants:
-        vb = vlib.cxx_build(v, ("vharness",))
         ctx.log(f"cross-build {v}")
-        for netname, lines, ref in [("formula:wide", xlines, (outs["wide"] or [])[:len(xlines)]), (symnet, eval_lines, results.get(symnet))]:
-            if not ref:
+        for (v2, netname, lines, ref), fut in zip(jobs, xf):
+            if v2 != v:
                 continue
-            rc, out, err = run_impl(vb, nets.get(netname), lines)
+            rc, out, err = fut.result()
             ctx.count(len(lines))
             if rc != 0 or len(out) != len(lines):
                 impl_died(ctx, "cross-build", v, netname, lines, None, rc, out, err)
